@@ -219,14 +219,37 @@ def run_case(spec):
             a, b = b, a  # non-Hermitian mode solves both orientations: the lower one may be needed first
             variant += " lower-first"
 
+        held = {}
+
         def go():
-            outs = matprob.call_library(q)
-            outs[1][(a, b) + need_order]
+            held["outs"] = matprob.call_library(q)
+            held["outs"][1][(a, b) + need_order]
+
+        def again():
+            # the rejection must not depend on the history: the same request repeated, the mirrored one and the
+            # H_tilde element one order later on the SAME computation must be rejected again, never answered
+            if "outs" not in held:
+                return
+            later = tuple(x + (1 if k == 0 else 0) for k, x in enumerate(need_order))
+            probes = [(1, (a, b) + need_order), (1, (b, a) + need_order), (2, (a, b) + need_order)]
+            if not late:
+                probes.append((0, (a, a) + later))  # H_tilde_aa at the next order contains H_ab U_ba: needs the same quantity
+            for s_, idx in probes:
+                try:
+                    v = held["outs"][s_][idx]
+                except REJECT:
+                    counters["rejected_again_after_history"] += 1
+                    continue
+                except Exception as e:  # noqa: BLE001
+                    raise Violation(f"after a rejected request, {('H_tilde', 'U', 'U_inv')[s_]}{list(idx)} raised {type(e).__name__} ({e}) instead of the rejection")
+                raise Violation(f"blocks {a},{b} share an energy ({variant}): after the first request was rejected, {('H_tilde', 'U', 'U_inv')[s_]}{list(idx)} "
+                                f"on the same computation returned a value ({type(v).__name__}) - the answer depends on the request history")
 
         base = matprob.derive(p, terms_f={n: (M if n == z else tf[n]) for n, M in p.terms_f.items()},
                               terms_x=({n: (M if n == z else tx[n]) for n, M in p.terms_x.items()} if p.exact else None), masks={}, fd=sel_fd)
         _twin_is_fine(base, [(1, (a, b) + need_order)], counters)
         _expect_rejection(f"blocks {a},{b} share an energy ({variant}), needed at U[{a},{b},{need_order}]", go, counters)
+        again()
     elif cls == "degenerate_elimination":
         cands = [(b, m) for b, m in p.masks.items()]
         Ec = np.array([complex(e) for e in p.E])
@@ -429,7 +452,7 @@ def finalize(c, tier, evaluations, distinct):
     for cls in CLASSES:
         if c.get(f"class_{cls}", 0) < 30:
             reasons.append(f"class {cls} exercised only {c.get('class_' + cls, 0)} times")
-    for k, v in dict(rejected=400, negative_controls=500, vtype_sympy=50, vtype_sparse=50, nonhermitian_symbolic_second_quantised=10).items():
+    for k, v in dict(rejected=400, negative_controls=500, vtype_sympy=50, vtype_sparse=50, nonhermitian_symbolic_second_quantised=10, rejected_again_after_history=200).items():
         if c.get(k, 0) < v:
             reasons.append(f"{k} observed only {c.get(k, 0)} (< {v})")
     return reasons
